@@ -235,6 +235,8 @@ pub fn trace_case(t: &Traced) -> (String, String) {
     let mut nchan = 0usize;
     let mut tok: HashMap<(u64, u8), usize> = HashMap::new();
     let mut scripts: Vec<Vec<String>> = vec![vec![]];
+    // thread -> channel of the read it is currently retrying (the instruction is not completed yet)
+    let mut retrying: HashMap<usize, usize> = HashMap::new();
     let mut answer: Vec<String> = vec![];
     let mut calls: Vec<String> = vec![];
     for c in &t.calls {
@@ -271,7 +273,10 @@ pub fn trace_case(t: &Traced) -> (String, String) {
                             nchan += 1;
                             (Some("n".into()), format!("n{}", nchan - 1))
                         }
-                        StepKind::ReadBlocked(p) => (None, format!("b{}", cid(&chan, p))),
+                        StepKind::ReadBlocked(p) => {
+                            retrying.insert(id, cid(&chan, p));
+                            (None, format!("b{}", cid(&chan, p)))
+                        }
                         StepKind::ReadOk(p, bits, tag) => {
                             let n = tok.len();
                             let v = *tok.entry((*bits, *tag)).or_insert(n);
@@ -295,6 +300,7 @@ pub fn trace_case(t: &Traced) -> (String, String) {
                         }
                     };
                     if let Some(it) = item {
+                        retrying.remove(&id);
                         scripts[id].push(it);
                     }
                     evs.push(format!("{id}.{ev}"));
@@ -310,6 +316,9 @@ pub fn trace_case(t: &Traced) -> (String, String) {
             c.steps,
             if q.is_empty() { "-".to_string() } else { q.join(",") }
         ));
+    }
+    for (id, c) in &retrying {
+        scripts[*id].push(format!("r{c}"));
     }
     let scripts: Vec<String> =
         scripts.iter().map(|s| if s.is_empty() { "-".to_string() } else { s.join(",") }).collect();
